@@ -73,7 +73,7 @@ func env(repo string) []string {
 	if repo != "/repo" {
 		flags += " -modfile=" + altModfile(repo)
 	}
-	out = append(out, "GOFLAGS="+flags, "GOPROXY=off", "GOTOOLCHAIN=auto", "VERIF_DIR="+verifDir)
+	out = append(out, "GOFLAGS="+flags, "GOPROXY=off", "GOTOOLCHAIN=auto", "VERIF_DIR="+verifDir, "GOGC=400")
 	return out
 }
 
